@@ -63,7 +63,7 @@ CHECKS = {
    note="Trusted: the MustReject reference (harness/ukit/compat.go), sound by construction (claims nothing outside it); degenerate min>max schemas are exempt from reflexivity and range claims.",
    technique="exhaustive enumeration of bounded schema pairs (identical / single-feature-mutated / unrelated) x exhaustive map-iteration orders, against a reference relation; supervised workers for non-termination", design="DESIGN.md §7 C15"),
  "C16": dict(level="exploration", engine="U",
-   text="For the 5 built-in unit sets and 12 generated definitions (multipliers over {2,10,60,1000}, names that are prefixes of each other, names with regexp metacharacters): every integer in [0,200000], powers of ten, multiplier boundaries and the 63-bit edge formatted (short and long) and parsed back exactly; floats on two grids within tolerance; every well-formed string of 1-3 descending components over a count alphabet in 4 name/spacing variants must parse to the sum; near misses and 64-bit overflows must be errors.",
+   text="For the 5 built-in unit sets and 18 generated definitions (multipliers over {2,10,60,1000}, names that are prefixes of each other, names with regexp metacharacters, names with a space inside): every integer in [0,200000], powers of ten, multiplier boundaries and the 63-bit edge formatted (short and long) and parsed back exactly; floats on two grids within tolerance; every well-formed string of 1-3 descending components over a count alphabet in 4 name/spacing variants must parse to the sum; near misses and 64-bit overflows must be errors.",
    note="Trusted: the reference sum/overflow computation in harness/c16; ambiguous strings (bare numbers, decimal counts, negative quantities) are outside the alphabet.",
    technique="exhaustive enumeration of a bounded input space (integers, float grids, component strings) against a reference model", design="DESIGN.md §7 C16"),
  "C17": dict(level="exploration", engine="U",
